@@ -325,6 +325,7 @@ type loopCtx struct {
 	fd   *ast.FuncDecl
 	g    *FG
 	env  *symEnv
+	condOverride map[*ast.ForStmt]ast.Expr
 }
 
 func newLoopCtx(c *Ctx, info *types.Info, fd *ast.FuncDecl, body *ast.BlockStmt) *loopCtx {
@@ -352,6 +353,29 @@ func (lc *loopCtx) classify(loop ast.Stmt) loopVerdict {
 			return lc.classifyBlock(s)
 		}
 		cond := ast.Unparen(s.Cond)
+		if ov, ok := lc.condOverride[s]; ok {
+			cond = ast.Unparen(ov)
+		}
+		// A && B: the loop ends as soon as either conjunct fails, so one conjunct in a terminating form is enough
+		if be, ok := cond.(*ast.BinaryExpr); ok && be.Op == token.LAND {
+			var last loopVerdict
+			for _, cj := range []ast.Expr{be.X, be.Y} {
+				if lc.condOverride == nil {
+					lc.condOverride = map[*ast.ForStmt]ast.Expr{}
+				}
+				lc.condOverride[s] = cj
+				v := lc.classify(s)
+				delete(lc.condOverride, s)
+				if v.OK {
+					v.Detail = "conjunct " + exprStr(cj) + ": " + v.Detail
+					return v
+				}
+				last = v
+			}
+			last.Undec = true
+			last.Detail = "no conjunct of the condition is in a terminating form (" + last.Detail + ")"
+			return last
+		}
 		// LP-token: for ok { ... ok = call }
 		if id, ok := cond.(*ast.Ident); ok {
 			if v, isVar := info.Uses[id].(*types.Var); isVar && isBoolType(v.Type()) {
@@ -510,6 +534,10 @@ func (lc *loopCtx) classify(loop ast.Stmt) loopVerdict {
 				}
 				return loopVerdict{Form: "LP-count", OK: true, Detail: fmt.Sprintf("counter %s steps monotonically towards the invariant bound %s", exprStr(xe), exprStr(ne))}
 			}
+			if st == 0 && assignedIn(info, s.Post, key, env) {
+				// stepped by an amount whose sign is not known here
+				return loopVerdict{Form: "LP-count", Undec: true, Detail: fmt.Sprintf("the post statement %s steps %s by an amount whose sign is not established", nodeText(lc.c.Fset, s.Post), exprStr(xe))}
+			}
 			return loopVerdict{Form: "LP-count", Detail: fmt.Sprintf("the post statement %s does not move %s towards the bound", nodeText(lc.c.Fset, s.Post), exprStr(xe))}
 		}
 		// LP-while: every path must pass a progressing step; no regressing step anywhere
@@ -603,6 +631,50 @@ func (lc *loopCtx) envWithPositives(inner *ast.ForStmt) *symEnv {
 		}
 		return true
 	})
+	// single-definition locals of enclosing loop bodies computed from positive constants and
+	// known-positive variables by + and * (var stride = 2 * width)
+	for iter := 0; iter < 2; iter++ {
+		ast.Inspect(lc.fd.Body, func(x ast.Node) bool {
+			lhs, rhs, ok := multiDef(x)
+			if !ok || len(lhs) != 1 {
+				return true
+			}
+			id, ok := lhs[0].(*ast.Ident)
+			if !ok {
+				return true
+			}
+			v, ok := lc.info.Defs[id].(*types.Var)
+			if !ok || env.positiveVars[v] {
+				return true
+			}
+			n := 0
+			ast.Inspect(lc.fd.Body, func(y ast.Node) bool {
+				switch a := y.(type) {
+				case *ast.AssignStmt:
+					for _, l := range a.Lhs {
+						if lid, ok := l.(*ast.Ident); ok && (lc.info.Uses[lid] == v || lc.info.Defs[lid] == v) {
+							n++
+						}
+					}
+				case *ast.IncDecStmt:
+					if lid, ok := a.X.(*ast.Ident); ok && lc.info.Uses[lid] == v {
+						n++
+					}
+				case *ast.ValueSpec:
+					for _, nm := range a.Names {
+						if lc.info.Defs[nm] == v {
+							n++
+						}
+					}
+				}
+				return true
+			})
+			if n == 1 && positiveExpr(lc.info, rhs, env) > 0 {
+				env.positiveVars[v] = true
+			}
+			return true
+		})
+	}
 	return env
 }
 
